@@ -325,6 +325,12 @@ def handle (op : String) : P String := do
   | "t.addnested" => do
     let k ← nat; let a ← many tensor k; let k2 ← nat; let b ← many tensor k2
     pure (respond (Tensor.addNested a b) (fun l => " ".intercalate (l.map rTensor)))
+  | "t.subnested" => do
+    let k ← nat; let a ← many tensor k; let k2 ← nat; let b ← many tensor k2
+    pure (respond (Tensor.subNested a b) (fun l => " ".intercalate (l.map rTensor)))
+  | "t.mulnested" => do
+    let k ← nat; let a ← many tensor k; let k2 ← nat; let b ← many tensor k2
+    pure (respond (Tensor.mulNested a b) (fun l => " ".intercalate (l.map rTensor)))
   | "t.addnestedopt" => do
     let k ← nat; let a ← many optTensor k; let k2 ← nat; let b ← many optTensor k2
     pure (respond (Tensor.addNestedOpt a b) (fun l => " ".intercalate (l.map rOptTensor)))
